@@ -177,6 +177,24 @@ SPECIALS = [
 ]
 
 
+# every macro x every way its body / range can fail (plain error, error inside ||, &&, ?:, a nested macro, has(), a failing
+# element only late in the list, a failing range): deterministic, so that detection does not depend on what the generators draw
+MACRO_ERROR_FORMS = [
+    "{r}.{m}(x, {e})", "{r}.{m}(x, {e} || false)", "{r}.{m}(x, false || {e})", "{r}.{m}(x, {e} && true)", "{r}.{m}(x, x > 1 && {e})", "{r}.{m}(x, x > 1 ? {e} : true)",
+    "{r}.{m}(x, {e} ? true : false)", "{r}.{m}(x, [x].exists(y, {e}))", "{r}.{m}(x, [x].all(y, {e}))", "{r}.{m}(x, x == 3 ? {e} : x > 1)", "{r}.{m}(x, x == 1 ? {e} : x > 1)",
+    "{r}.{m}(x, {e}) || true", "true || {r}.{m}(x, {e})", "false && {r}.{m}(x, {e})", "{r}.{m}(x, x > 0)[0] == 1 || {e}", "({e2}).{m}(x, true)", "[{r}.{m}(x, {e})]", "size({r}.{m}(x, {e} || false))",
+]
+for _m in ("map", "filter", "exists_one", "all", "exists"):
+    for _f in MACRO_ERROR_FORMS:
+        for _e in ("[][0]", "1 / 0 > 0", "{}.k", "nope"):
+            if _m in ("all", "exists", "exists_one") and ("[0] == 1" in _f or "size(" in _f):
+                continue
+            try:
+                SPECIALS.append((_f.format(r="[1, 2, 3]", m=_m, e=_e, e2="[1, 2][5]"), "macro-error-form"))
+            except (KeyError, IndexError):
+                pass
+
+
 def nontrivial(src: str, oi) -> bool:
     return oi[0] == "E" or any(tok in src for tok in ("&&", "||", "?", "has(", ".map(", ".filter(", ".all(", ".exists"))
 
